@@ -494,7 +494,7 @@ def cmd_manifest():
             "level_claimed": {
                 "category": "exploration",
                 "text": cfg["level_text"],
-                "design_ref": f"DESIGN.md section 5, {cid}",
+                "design_ref": f"DESIGN.md section 5 ({cid}: design) and section 9 (as built, findings, seeded changes)",
             },
             "level_note": cfg["level_note"],
             "technique": cfg["technique"],
